@@ -3,6 +3,7 @@ package main
 // Evaluation of contract expressions to SMT terms.
 
 import (
+	"os"
 	"fmt"
 	"go/types"
 	"math/big"
@@ -223,6 +224,12 @@ func (fv *FV) evalSpec(e *Expr, env *Env) Val {
 		return Val{T: "nil", S: "Nil"}
 	case "id":
 		if v, ok := fv.lookupId(e.Name, env); ok {
+			if os.Getenv("GOVC_DEBUG_ID") == e.Name {
+				_, inVars := env.vars[e.Name]
+				_, inNames := env.names[e.Name]
+				_, inParams := env.params[e.Name]
+				fmt.Fprintf(os.Stderr, "lookup %s in %s -> T=%q S=%q loc=%v vars=%v names=%v params=%v\n", e.Name, env.fn.Name(), v.T, v.S, v.Loc != nil, inVars, inNames, inParams)
+			}
 			return v
 		}
 		fv.specErr("unknown identifier %s in %s", e.Name, env.fn.Name())
@@ -560,17 +567,12 @@ func (fv *FV) evalCall(e *Expr, env *Env) Val {
 		}
 		fv.specErr("fnidOf: no function %q", name)
 	case "external":
-		// external(x): the dynamic type of x is none of the library's own implementors
+		// external(x): x is non-nil and its dynamic type is not declared in the library
 		x := arg(0)
-		iface, ok := x.Typ.Underlying().(*types.Interface)
-		if !ok {
+		if x.S != "Iface" {
 			fv.specErr("external() of non-interface")
 		}
-		parts := []string{fmt.Sprintf("(not (= (ityp %s) 0))", x.T)}
-		for _, c := range fv.eng.implementors(iface) {
-			parts = append(parts, fmt.Sprintf("(not (= (ityp %s) %d))", x.T, fv.u.typeID(c)))
-		}
-		return Val{T: "(and " + strings.Join(parts, " ") + ")", S: "Bool"}
+		return Val{T: fmt.Sprintf("(and (not (= (ityp %s) 0)) (not (lib_type (ityp %s))))", x.T, x.T), S: "Bool"}
 	case "cast":
 		// cast("*pkg.T", x): view an interface payload or a ghost ref as a typed pointer
 		t := fv.parseTypeName(e.Args[0].Name)
@@ -654,6 +656,8 @@ func (fv *FV) evalCall(e *Expr, env *Env) Val {
 			t = fmt.Sprintf("(sref %s)", x.T)
 		}
 		return Val{T: fmt.Sprintf("(> %s %s)", t, env.old.alloc), S: "Bool"}
+	case "allocbound":
+		return Val{T: fmt.Sprintf("(+ %s 1)", env.st.alloc), S: "Int"}
 	case "allocatedAfter":
 		x, y := arg(0), arg(1)
 		tx, ty := x.T, fv.asTermSpec(env, y).T
